@@ -163,6 +163,15 @@ pub proof fn rsum_one<T>(x: T, f: spec_fn(T) -> real)
     assert(seq![x].last() == x);
     assert(rsum(seq![x].drop_last(), f) == 0real);
 }
+pub proof fn lemma_wavg_nonneg(a1: real, p1: real, a2: real, p2: real)
+    requires a1 > 0real, a2 > 0real, p1 >= 0real, p2 >= 0real
+    ensures (a1 * p1 + a2 * p2) / (a1 + a2) >= 0real, a1 + a2 > 0real
+{
+    assert(a1 * p1 >= 0real) by(nonlinear_arith) requires a1 > 0real, p1 >= 0real;
+    assert(a2 * p2 >= 0real) by(nonlinear_arith) requires a2 > 0real, p2 >= 0real;
+    let n = a1 * p1 + a2 * p2; let dd = a1 + a2;
+    assert(n / dd >= 0real) by(nonlinear_arith) requires n >= 0real, dd > 0real;
+}
 pub proof fn lemma_share_bounds(a: real, q: real, t: real)
     requires a >= 0real, 0real < q <= t
     ensures 0real <= a * (q / t) <= a
@@ -378,6 +387,26 @@ pub open spec fn legs_of(legs: Seq<MatchResult>, tx: GbpTransaction) -> bool {
 pub open spec fn held_for_sale(ledgers: Map<Seq<char>, matcher::AcquisitionLedger>, pools: Map<Seq<char>, Section104Holding>, tx: GbpTransaction) -> real {
     (if ledgers.contains_key(tx.ticker@) { avail_on(ledgers[tx.ticker@]@, tx.date.d()) } else { 0real })
     + (if pools.contains_key(tx.ticker@) { pools[tx.ticker@].quantity.v() } else { 0real })
+}
+
+
+// ---------- input validity (what the DSL grammar and the JSON validator guarantee) ----------
+pub open spec fn tx_valid(tx: GbpTransaction) -> bool {
+    match tx.operation {
+        Operation::Buy { amount, price, fees } => amount.v() > 0real && price.v() >= 0real && fees.v() >= 0real,
+        Operation::Sell { amount, price, fees } => amount.v() > 0real && price.v() >= 0real && fees.v() >= 0real,
+        _ => true,
+    }
+}
+pub open spec fn txs_valid(txs: Seq<GbpTransaction>) -> bool { forall|i: int| 0 <= i < txs.len() ==> tx_valid(#[trigger] txs[i]) }
+pub open spec fn ledgers_wf(m: Map<Seq<char>, matcher::AcquisitionLedger>) -> bool { forall|k: Seq<char>| #[trigger] m.contains_key(k) ==> wf_lots(m[k]@) }
+pub open spec fn ledgers_idx_lt(m: Map<Seq<char>, matcher::AcquisitionLedger>, n: int) -> bool {
+    forall|k: Seq<char>, j: int| #![trigger m[k]@[j]] m.contains_key(k) && 0 <= j < m[k]@.len() ==> (m[k]@[j].transaction_idx as int) < n
+}
+/// strict positivity of every split ratio (what the check added by the F3 fix establishes)
+pub open spec fn ratios_pos(txs: Seq<GbpTransaction>) -> bool {
+    forall|i: int| 0 <= i < txs.len() ==> (((#[trigger] txs[i]).operation is Split ==> txs[i].operation->Split_ratio.v() > 0real)
+        && (txs[i].operation is Unsplit ==> txs[i].operation->Unsplit_ratio.v() > 0real))
 }
 
 // ---------- proceeds ----------
